@@ -338,6 +338,36 @@ func c03Cases(c *h.Ctx) error {
 				if d := c03FirstDiff(b2, ln.After); d >= 0 {
 					c.Fail("header.Header.SetPID", "layout:"+c03FieldAt(d), fmt.Sprintf("after SetPID(%#x): code %s spec %s", uint32(ln.SetPID), h.Hex(b2), h.Hex(ln.After)), smp)
 				}
+				// the security features are changed IN PLACE through the pointer the header holds (the signing flow: encode,
+				// compute the MAC, SetSecuritySignature, encode again; a connectionless retransmit: SequenceNumber++): the next
+				// encoding carries the new 8 bytes and is otherwise unchanged
+				switch sf := hd.SecurityFeatures.(type) {
+				case *securityfeatures.SecurityFeaturesSecuritySignature:
+					sig := sf.GetSecuritySignature()
+					for i := range sig {
+						sig[i] = ^sig[i]
+					}
+					sf.SetSecuritySignature(sig)
+				case *securityfeatures.SecurityFeaturesConnectionlessTransport:
+					sf.SequenceNumber++
+					sf.Key ^= 0x5A5A5A5A
+				case *securityfeatures.SecurityFeaturesReserved:
+					for i := range sf.Reserved {
+						sf.Reserved[i] ^= 0xFF
+					}
+				}
+				if hd.SecurityFeatures != nil && len(b2) == 32 {
+					sfb, _ := hd.SecurityFeatures.Marshal()
+					b3, _ := hd.Marshal()
+					c.Exec(1)
+					want := append([]byte(nil), b2...)
+					if len(sfb) == 8 {
+						copy(want[14:22], sfb)
+					}
+					if !bytes.Equal(b3, want) {
+						c.Fail("header.Header.Marshal", "stale-after-securityfeatures-change", fmt.Sprintf("security features (%s) changed in place after an encoding: code %s, expected %s", sec, h.Hex(b3), h.Hex(want)), smp)
+					}
+				}
 			}
 			// decode the specification's bytes
 			hd := header.NewHeader()
